@@ -19,8 +19,10 @@ SET_SUBS = [2, 3, 22, 23, 47, 0, 1, 16, 24, 37, 21]
 
 
 def make_cfg(rng, versions, mqtt_rate=0.1, flavours=("sync", "async")):
-    return {"ver": rng.choice(versions), "flavour": rng.choice(flavours), "callback": rng.random() < 0.85,
-            "cb_raises": rng.random() < 0.2, "mqtt": rng.random() < mqtt_rate}
+    from harness import gwcheck
+    return gwcheck.spell(rng, {"ver": rng.choice(versions), "flavour": rng.choice(flavours),
+                               "callback": rng.random() < 0.85, "cb_raises": rng.random() < 0.2,
+                               "mqtt": rng.random() < mqtt_rate})
 
 
 class Net:
